@@ -327,6 +327,8 @@ impl<const H: usize> Writer<H> {
         let zero_header = [0u8; RECORD_HEAD_SIZE];
         self.writer.get_ref().write_all_at(&zero_header, offset)?;
         self.writer.get_ref().sync_data()?;
+        #[cfg(sierradb_verif)]
+        crate::verif::point("seglog.set_len", &[offset]);
 
         // Readers may have cached the truncated records; the offsets will be reused
         self.flushed_offset.invalidate_cached_reads();
@@ -348,6 +350,8 @@ impl<const H: usize> Writer<H> {
             trace!("flushing writer");
             self.writer.flush()?;
             self.writer.get_ref().sync_data()?;
+            #[cfg(sierradb_verif)]
+            crate::verif::point("seglog.synced", &[self.write_offset]);
             self.flushed_offset.set(self.write_offset);
             self.dirty = false;
         }
